@@ -38,7 +38,7 @@ CONFIGS = {
     "quick": [("shapes-all", "AllKinds", 4, "Palette2"), ("shapes-text", TEXTK, 6, "Palette1"),
               ("strings", STRK, 3, "Str2"), ("sinks", SINKK, 3, "StrSinks2"),
               # format metacharacters (% templates, str.format templates) in glyph text, font, figure and image names
-              ("format", STRK, 3, "StrFormat2")],
+              ("format", STRK, 3, "FormatPalette")],
     "thorough": [("shapes-all", "AllKinds", 5, "Palette2"), ("shapes-text", TEXTK, 7, "Palette1"),
                  ("shapes-figure", FIGK, 5, "Palette2"), ("strings", STRK, 3, "Str3"), ("shapes-all6", "AllKinds", 6, "Palette1"),
                  ("sinks", STRK, 3, "StrSinks3"), ("format", STRK, 3, "StrFormat3")],
